@@ -281,6 +281,23 @@ func main() {
 		bh.Ops = append(bh.Ops, Op{Kind: "reopen", WF: true})
 		probe(&first)
 		probe(&second)
+		// header ranges longer than one headers message, read in one call
+		last := second.Es[len(second.Es)-1].A
+		for _, n := range []int64{2000, 2050} {
+			bh.Ops = append(bh.Ops, Op{Kind: "qbanc", N: n, X: last, WF: true})
+		}
+		// an old database (the entries of heights 1..6000 in the root bucket)
+		// and one rollback whose range lies on both sides of that boundary
+		// and is longer than one headers message
+		leg := Op{Kind: "legacy", WF: true}
+		for _, en := range append(append([]storeh.Ent{}, first.Es...), second.Es[:1500]...) {
+			leg.Es = append(leg.Es, storeh.Ent{A: en.A})
+		}
+		bh.Ops = append(bh.Ops, leg, Op{Kind: "brollback", N: 4000, WF: true})
+		probe(&first)
+		probe(&second)
+		bh.Ops = append(bh.Ops, Op{Kind: "reopen", WF: true})
+		probe(&second)
 		big, _, _ = runOne(bigID, a.Seed, 0, base, bigPool, &bh)
 		var sb strings.Builder
 		sb.WriteString("From Coq Require Import ZArith List.\nFrom Verif Require Import S1.Model C07.Replay.\nImport ListNotations.\nOpen Scope Z_scope.\n")
